@@ -22,6 +22,7 @@ from ipv8.lazy_community import retrieve_cache
 from ipv8.requestcache import NumberCache, RandomNumberCache, RequestCache
 
 from .. import core, seams, vloop
+from ..ref import c10_shipped as shipped
 from ..ref.c10_ref import OUTSTANDING, RefCaches
 
 LEVEL = "model_checking"
@@ -771,8 +772,13 @@ def run(ctx: core.Ctx) -> core.Report:
     for v in violations:
         if v.key not in best or len(v.replay["history"]) < len(best[v.key].replay["history"]):
             best[v.key] = v
+    ship_cov, ship_viol = run_shipped(ctx)
+    for v in ship_viol:
+        best.setdefault(v.key, v)
     cov = {
-        "states": total_states, "transitions": total_trans, "traces_validated_against_impl": total_trans,
+        "states": total_states, "transitions": total_trans,
+        "traces_validated_against_impl": total_trans + ship_cov["executions"],
+        "shipped_cache_classes": ship_cov, "not_covered_cache_classes": ship_cov["not_covered_cache_classes"],
         "samples": samples, "exhaustive": exhaustive, "distinct_outcomes": outcomes, "runs": runs,
         "horizon_s": HORIZON,
         "explanation": "BFS over schedules (API call / one loop iteration / time passes to the next timer / queued I/O "
@@ -796,12 +802,73 @@ ASSUMPTIONS = [
     "cache objects are re-added as the same object (the API allows it; the library itself always builds a new one)",
     "wait_for() is explored as an observer only (worlds waiter*): what the waiter's future gets is not checked, the "
     "statement is silent about it; class filters of passthrough() and timeouts longer than 3 s are not explored",
+    "shipped-class family: faults are single (thorough: pairs) datagram faults on the first exchange with FIFO delivery "
+    "otherwise; the exit's DHT provider is a stub; add/pop of every RequestCache and on_timeout of every registered "
+    "cache are wrapped by instance attributes (the originals are called); E2E/Link/wallet caches: see "
+    "not_covered_cache_classes",
     "the harness keeps strong references to the timeout tasks it labels (TaskManager only keeps weak ones); a pending "
     "task is always strongly referenced by the loop's timer anyway",
 ]
 
 
+# ------------------------------------------------------------------------------------------------
+# second family: the shipped cache classes in their owner communities (mc/ref/c10_shipped.py)
+# ------------------------------------------------------------------------------------------------
+
+def _shipped_worker(chunk: list) -> list:
+    out = []
+    for name, seed, plan in chunk:
+        try:
+            r = shipped.execute(name, seed, plan)
+            out.append((name, plan, r["violations"], r["outcomes"], r["call"]))
+        except Exception as e:  # noqa: BLE001
+            import traceback
+            out.append((name, plan, [(f"harness-crash:{name}:{type(e).__name__}", traceback.format_exc()[-700:])], [], None))
+    return out
+
+
+def run_shipped(ctx: core.Ctx) -> tuple[dict, list]:
+    import json
+    items, per_scn = [], {}
+    for name in shipped.SCENARIOS:
+        base = shipped.execute(name, ctx.seed, {})
+        plans = shipped.plans_for(name, base["exchange"], base["draws"], ctx.thorough)
+        per_scn[name] = {"exchange_datagrams": base["exchange"], "random_draws": base["draws"], "executions": len(plans),
+                         "undisturbed_call": base["call"]}
+        items += [(name, ctx.seed, p) for p in plans]
+    res = core.pmap(_shipped_worker, items, ctx.jobs, chunk=6)
+    per_class: dict = {}
+    found: dict = {}
+    for name, plan, viol, outcomes, _call in res:
+        for label, how in outcomes:
+            d = per_class.setdefault(label, {})
+            d[how] = d.get(how, 0) + 1
+        for k, what in viol:
+            key = "shipped|" + k
+            cand = (len(json.dumps(plan)), json.dumps(plan, sort_keys=True), name)
+            if key not in found or cand < found[key][0]:
+                found[key] = (cand, core.Violation(key, f"[{name} {json.dumps(plan)}] {what}",
+                                                   {"family": "shipped", "scenario": name, "seed": ctx.seed, "plan": plan}))
+    all_classes = shipped.shipped_cache_classes()
+    cov = {
+        "executions": len(res), "scenarios": per_scn, "outcomes_per_class": per_class,
+        "classes_shipped": all_classes, "classes_registered": sorted(per_class),
+        "classes_seen_claimed_and_timed_out": sorted(c for c, d in per_class.items()
+                                                     if any(h.startswith("claimed") for h in d)
+                                                     and any(h.startswith("timed-out") for h in d)),
+        "not_covered_cache_classes": sorted(set(all_classes) - set(per_class)),
+        "bounds": "per scenario: undisturbed; every single drop/duplicate/deliver-after-all-timeouts of each datagram of "
+                  "the exchange; every withdrawal alone and with every single drop; every equal pair among the first "
+                  f"{shipped.MAX_EQUAL_DRAWS} random draws, with and without losing everything; everything lost"
+                  + ("; every pair of datagram faults" if ctx.thorough else ""),
+    }
+    return cov, [v for _, v in (found[k] for k in sorted(found))]
+
+
 def replay(ctx: core.Ctx, data: dict) -> list:
+    if data.get("family") == "shipped":
+        r = shipped.execute(data["scenario"], data["seed"], data["plan"])
+        return [core.Violation("shipped|" + k, what) for k, what in r["violations"]]
     m = Model.from_params(data["world"])
     hist = [_tup(e) for e in data["history"]]
     seams.reseed(("bfs", m.seed))
